@@ -147,13 +147,26 @@ def oracle(line, out, mode):
 
 
 def same(line, io, mo):
+    if line.startswith("CLI "):
+        from props import c20
+        return c20.same(line, io, mo)
     return False
 
 
 def canon(out):
     """TICK lines: how many clock reads a call takes is not part of the property (model: one); what is compared is whether the
     answer lies between the first and the last reading taken"""
+    import re
     import runner
+    if out and out.startswith("OK x") and " " not in out[3:]:
+        # TSTR / TSFMT: beyond year 9999 the property only asks for "no panic"; the wording of the fallback text is free
+        try:
+            txt = bytes.fromhex(out[4:]).decode("utf-8", "replace")
+        except ValueError:
+            return out
+        if not re.match(r"^[0-9]{4}-[0-9]{2}-[0-9]{2}T", txt):
+            return "OK <text that is not an RFC 3339 date>"
+        return out
     if out and out.startswith("OK ") and " READS " in out:
         o = out.split(" ")
         try:
